@@ -22,6 +22,7 @@ CHECK = {
                  "race_pass": True, "gomaxprocs": 1, "budget_s": {"quick": 60, "thorough": 420}},
         # the resolver's side: which zone failures (and request-local failures) become shared state, against authsim
         "zone": {"pkg": "internal/verifshim/h_c13", "run": "TestVerifC13Zone",
+                 "doc": "real default chain against authsim zones with 1..4 name servers; every assignment of per-server behaviour {healthy, healthy-but-slow 150 ms, SERVFAIL, REFUSED, drop, garbage} for 1..3 servers (quick; + the '3 lame fast + 1 healthy (slow)' family) / 1..4 servers (thorough, 1296 + qmin variants); after the client query the cache handler's RFC 9520 failure store is listed (export seam) and probed by a follow-up for another name of the zone and one for a sibling zone. Oracle: a zone entry may exist only for a zone none of whose servers gives a usable response, and never for another zone; with a usable server the follow-up is not answered from a cached failure; the sibling is never affected; enforce-mode budget exhaustion (every MaxOutboundQueries 1..8, MaxInternalQueries 1..3), a client context cancelled after 1/30/100/250 ms and a 40/100 ms query deadline record neither question nor zone failures; failing AAAA answers seen only by the detached IPv6 enrichment record nothing; failure -> expiry (1 s initial back-off, waited on observed state) -> useful answer -> failure starts again at streak 1. Server order pinned through authority.randN; violations re-run 3x, disturbed runs repeated.",
                  "harness": {"middleware": ["zz_verif_export.go", "zz_verif_export_c12topo.go"],
                              "middleware/resolver": ["zz_verif_export_authsim.go", "zz_verif_export_c12topo.go"],
                              "middleware/cache": ["zz_verif_export_authsim.go", "zz_verif_export_c13zone.go"],
